@@ -60,6 +60,10 @@ CLAIMS = {
     text='Lean 4 theorems over the model of the CORS fang and the automatic OPTIONS handler (acao_everywhere, credentials_iff incl. the wildcard rule of the builder, expose_headers, preflight_iff: 200 without body iff the requested method is among the registered methods + HEAD with GET + OPTIONS, advertising exactly that list, max-age and configured-or-echoed headers; otherwise 400; options_without_method); differential run of application trees under the real fang (routes registered by several items, nested mounts) against the model on top of the router model, and against the header matrix computed independently from the policy and the flat route table',
     note=TB + 'the union of methods per route in the OPTIONS tree is part of the driver-level model (validated by correspondence), not of a theorem',
     technique='Lean 4 proof (decision logic of bite/default_options) + model/implementation correspondence'),
+ 'C16': dict(
+    text='Lean 4 theorems over two separate transcriptions — the derive (Macro.*: schema_of_fields, schema_of_variants, Case) and serde (Serde.*: RenameRule, which keys a derived Serialize writes and which a derived Deserialize lets be absent, the four enum representations): case_field_agrees / case_variant_agrees (all 8 rules, every identifier), struct_keys_exact (properties = keys serde writes, in order; required iff serde can neither omit nor default; flattened members exact), unit_enum_names_exact, variant_realises (each variant schema places tag and content as the representation does, fields renamed by the variant rename_all else rename_all_fields); correspondence: the REAL macro sources and the REAL serde_derive internals run on every identifier up to length 4 x 8 rules and on generated definitions, both against the model; plus a catalogue of 26 compiled types whose serialized values are validated against the real schema, with key sets and requiredness probed through from_value',
+    note=TB + 'modelled not verified: the schemas of field types (opaque), the builder API of ohkami_openapi (read through the catalogue only), syn parsing of attributes (covered by correspondence); the statement "every serialized value validates" is decided by validation of catalogue values, not yet by a theorem; two recorded findings (null for Option / untagged unit)',
+    technique='Lean 4 proof (two transcriptions shown equal / realising) + model/implementation correspondence against serde_derive itself'),
  'C17': dict(
     text='Lean 4 theorem stream_delivers_all (for every completing producer schedule the stream yields exactly all pushes in order: none lost when the producer completes with a non-empty queue, none duplicated) plus framing lemmas (zero-chunk termination, no empty data chunk, no CR survives normalisation); differential run of a real DataStream handler driven by scripted schedules against the model, and of the wire bytes against an RFC 9112 de-chunker and the WHATWG event-stream parser',
     note=TB + 'modelled not verified: the executor and wakers (one poll = one schedule step), the self-referential queue pointer; the end-to-end statement wire_decodes (parser after de-chunker = messages) is checked by the independent parser on every run, its Lean proof is in progress',
